@@ -181,7 +181,8 @@ Proof.
   unfold wf_doc_b, wf_doc. intros Hb.
   apply andb_prop in Hb as [Hb H5]. apply andb_prop in Hb as [Hb H4]. apply andb_prop in Hb as [Hb H3].
   apply andb_prop in Hb as [H1 H2].
-  repeat split; auto using wf_types_b_ok; try (apply wf_types_b_ok in H1; apply H1); apply bmem_In; assumption.
+  split; [apply wf_types_b_ok; exact H1|]. split; [apply bmem_In; exact H2|]. split; [apply bmem_In; exact H3|].
+  split; [exact H4|]. apply orb_prop in H5. exact H5.
 Qed.
 
 Lemma dims_fit_b_ok t : dims_fit_b t = true -> dims_fit t.
@@ -223,7 +224,8 @@ Proof.
     apply aset_absent. exact E. }
   destruct (parse_types gts) as [sts|] eqn:Et; [|discriminate].
   destruct (parse_val big_other sts _ (Struct domain_name) _) as [dv|] eqn:Ed; [|discriminate].
-  destruct (parse_val big_other sts _ (Struct (td_primary td)) _) as [mv|] eqn:Em; [|discriminate].
+  destruct (if bytes_eqb (td_primary td) domain_name then Some VNone
+            else parse_val big_other sts _ (Struct (td_primary td)) _) as [mv|] eqn:Em; [|discriminate].
   injection Hp as <-. cbn [d_types d_primary d_domain d_message] in *.
   apply parse_types_ok in Et.
   split; [|split; [reflexivity|split]].
@@ -235,7 +237,8 @@ Proof.
       apply assoc_keys in Hin as (def & Hdef).
       destruct (wf_lookup sts Hwt _ _ Hdef) as (_ & Hna & _). apply (Hna a Hwa). reflexivity.
   - apply parse_val_ok in Ed. exact Ed.
-  - apply parse_val_ok in Em. destruct (td_message td); exact Em.
+  - cbn [d_primary]. destruct (bytes_eqb (td_primary td) domain_name) eqn:Edo; [left; reflexivity|right].
+    apply parse_val_ok in Em. destruct (td_message td); exact Em.
 Qed.
 
 (* C04_digest_is_spec in its functional form *)
